@@ -205,6 +205,13 @@ impl Encoder<Message<(Response<()>, BodySize)>> for Codec {
                     self.conn_type
                 };
 
+                // The response to a CONNECT or upgrade request (STREAM) is never chunk-framed by
+                // the encoder; make the head agree with that instead of announcing
+                // `transfer-encoding: chunked` in front of a raw body.
+                if self.flags.contains(Flags::STREAM) && length == BodySize::Stream {
+                    res.head_mut().no_chunking(true);
+                }
+
                 // encode message; the connection type comes back as `Close` if the body has to be
                 // delimited by the end of the connection
                 self.conn_type = self.encoder.encode(
